@@ -3,6 +3,7 @@ import NaijaVerif.Driver.AstIO
 import NaijaVerif.Driver.FloatOps
 import NaijaVerif.Model.Eval
 import NaijaVerif.Gen.PanicSites
+import NaijaVerif.Lemmas.BridgeOk
 /-!
 Family `run` — the evaluator model driven by the REAL front end's annotated AST.
 
@@ -11,6 +12,10 @@ run <hex src> pol=<a|d> plan=<s1,s2,…|->;<f1,f2,…|-> | plan=none   ast=<anno
       -> out=<hex of Display text per printed value, comma separated | none> end=<ok | rt:<Kind>@<lo>:<hi> | panic@<file>:<line> | fuel>
 ws <anything> ast=<annotated AST line>
       -> ws=1 | ws=0          (`Eval.WellScoped`, the decidable hypothesis of `Props/C04.lean`'s `c04_dynamic`)
+kept <hex src> pol=<a|d> plan=<…> ast=<annotated AST line>
+      -> kept=1 | kept=0      (`Bridge.keptBlock plan root`: the hypothesis `PlanKeepsCalls` of `Props/C06Accepted.lean`
+                               — outside removed statements and the bodies of removed functions no call is bound to a
+                               removed function — evaluated on the REAL plan and the real resolver's annotations)
 rej <hex src>                 -> rejected
 fmt <bits: 16 hex digits>     -> <hex of the Display text>          (validation of the driver's float routines)
 parse <hex text>              -> <bits> | nan | err
@@ -74,6 +79,8 @@ def parsePlan (s : String) : Option (Option Plan) :=
 
 def fuel : Nat := 100000
 
+def keptOf (plan : Option Plan) (blk : Block) : Bool := NaijaVerif.Bridge.keptBlock plan blk
+
 def siteLoc (site : PanicSite) : String :=
   match site.srcLabel with
   | some lbl =>
@@ -110,6 +117,13 @@ def answer (line : String) : String :=
   match line.splitOn " ast=" with
   | [head, ast] =>
     if head.startsWith "run " then answerRun head ast
+    else if head.startsWith "kept " then
+      match (words head).filter (·.startsWith "plan=") with
+      | [plan] =>
+        match parsePlan ((plan.drop 5).toString), AstIO.readBlock ast with
+        | some pl, some blk => if keptOf pl blk then "kept=1" else "kept=0"
+        | _, _ => "bad-request"
+      | _ => "bad-request"
     else if head.startsWith "ws " then
       -- the hypothesis of C04's dynamic theorem, evaluated on the real resolver's annotations
       match AstIO.readBlock ast with
